@@ -435,6 +435,27 @@ def gen_cases(ctx: Ctx, rig: R.Rig, seeds: Seeds) -> tuple[list[Iterable[Case]],
             seen.add((mid, body))
             yield Case('seed', sess, 'message', mid, body, consolidate=rng.random() < 0.3, note=origin, encs=ALL if first else some())
 
+    def g_route_layouts():
+        """Where the routes of an UPDATE sit: withdrawn-routes field, MP_UNREACH_NLRI, MP_REACH_NLRI, NLRI field, in
+        every combination, with well-formed attributes, with one that makes the UPDATE treat-as-withdraw (the
+        announced routes join the withdrawn ones, of whatever family, in whatever order) and with one that is
+        discarded."""
+        v4a, v4b, v4c = bytes([24, 10, 0, 0]), bytes([24, 10, 0, 1]), bytes([16, 172, 16])
+        v6a, v6b = bytes([32, 0x20, 1, 0x0D, 0xB8]), bytes([48, 0x20, 1, 0x0D, 0xB8, 0, 1])
+        nh6 = bytes([0x20, 1, 0x0D, 0xB8] + [0] * 11 + [1])
+        med3 = R.attr(0x80, 4, b'\x00\x00\x01')  # 3-octet MED: treat-as-withdraw (RFC 7606 7.4)
+        agg5 = R.attr(0xC0, 7, b'\x00\x01\x02\x03\x04')  # 5-octet AGGREGATOR: attribute discard (RFC 7606 7.7)
+        for wd in (b'', v4b, v4b + v4c):
+            for unreach in (b'', R.mp_unreach(2, 1, v6b), R.mp_unreach(1, 2, v4c)):
+                for reach in (b'', R.mp_reach(2, 1, nh6, v6a)):
+                    for nlri in (b'', v4a, v4a + v4c):
+                        if not (wd or unreach or reach or nlri):
+                            continue
+                        for extra, what in ((b'', 'well-formed'), (med3, 'treat-as-withdraw'), (agg5, 'discard')):
+                            attrs = (R.BASE_ATTRS if (nlri or reach) else b'') + extra + reach + unreach
+                            yield Case('route-layout', 'all', 'message', 2, R.update_body(attrs, nlri, withdrawn=wd), consolidate=rng.random() < 0.3,
+                                       note=f'{what}: wd {len(wd)} unreach {len(unreach)} reach {len(reach)} nlri {len(nlri)}', encs=ALL if extra else some())
+
     def g_attr_pairs():
         codes = sorted(c for c in seeds.attr_samples if c not in (14, 15))
         for i, a in enumerate(codes):
@@ -758,7 +779,7 @@ def gen_cases(ctx: Ctx, rig: R.Rig, seeds: Seeds) -> tuple[list[Iterable[Case]],
             origin, sess, mid, body = rng.choice(pool)
             yield Case('seed-mutated', sess, 'message', mid, mutate(rng, body), consolidate=rng.random() < 0.1, note=origin, encs=some())
 
-    return [g_small(), g_attr_pairs(), g_communities(), g_nested(), g_tlv_structures(), g_bgpls_structures(), g_hostile_strings(), g_seeds()], [g_attrs(), g_nlri(), g_open(), g_bgpls(), g_mutation()]
+    return [g_small(), g_route_layouts(), g_attr_pairs(), g_communities(), g_nested(), g_tlv_structures(), g_bgpls_structures(), g_hostile_strings(), g_seeds()], [g_attrs(), g_nlri(), g_open(), g_bgpls(), g_mutation()]
 
 
 def interleave(gens: list[Iterable[Case]], chunk: int = 20) -> Iterable[Case]:
